@@ -20,6 +20,8 @@ RUN_PROFILES = {
                         imm=0.1, params=0.3, parloop_shapes="all", max_block=2, max_tasks=4),
     "junk": dict(junk=0.4, imm=0.1),
     "uuid": dict(test_ids=False, imm=0.2, w={"count": 3, "parallel": 2, "parloop": 1}),
+    "uuid_loops_calls": dict(test_ids=False, imm=0.2, max_depth=4, max_tasks=4,
+                             w={"count": 4, "while": 1, "call": 5, "service": 3, "parallel": 1, "cond": 1}),
     "uuid_cond_loops": dict(test_ids=False, imm=0.3, max_depth=4,
                             w={"count": 4, "while": 2, "cond": 5, "service": 4, "call": 2, "parallel": 1}),
     "params": dict(params=1.0, w={"count": 4, "parloop": 2, "call": 3, "service": 4}, imm=0.1),
@@ -60,13 +62,13 @@ PROPS = {
     "C06": dict(kind="run", proj="P_set", mon="mon_true",
                 profiles=["parloop", "react_parloop"], quick=240, thorough=6000, finding_profiles=["parloop_all", "parloop_mix"]),
     "C07": dict(kind="run", proj="P_ids", mon="mon_C07",
-                profiles=["default", "imm", "parallel", "loops", "parloop", "react", "react_loops"], quick=240, thorough=6000,
-                finding_profiles=["react_all", "parloop_all"]),
+                profiles=["default", "imm", "parallel", "loops", "parloop", "react", "react_loops", "uuid_loops_calls"],
+                quick=240, thorough=6000, finding_profiles=["react_all", "parloop_all"]),
     "C08": dict(kind="run", proj="P_C08", mon="mon_C08",
                 profiles=["junk", "react_junk", "react"], quick=240, thorough=6000,
                 finding_profiles=["parloop_all"]),
     "C14": dict(kind="run", proj="P_ids", mon="mon_C14",
-                profiles=["uuid", "uuid_cond_loops", "loops", "parloop", "parallel", "react_loops"], quick=240, thorough=6000,
+                profiles=["uuid", "uuid_cond_loops", "uuid_loops_calls", "loops", "parloop", "parallel", "react_loops"], quick=240, thorough=6000,
                 finding_profiles=["parloop_all"]),
     "C15": dict(kind="run", proj="P_C15", mon="mon_true",
                 profiles=["params", "params_indexed", "hostile_append", "hostile_clear", "hostile_replace"],
